@@ -96,7 +96,7 @@ func verifParBegin()                        {}
 func verifParMid()                          {}
 func verifParEnd()                          {}
 func verifYield()                           {}
-func verifHeldLocks() int                   { return 0 }
+func verifHeldLocks() int                   { return 1 << 20 } // not observable natively
 func verifParam(name string) int            { return verifDoc.Params[name] }
 
 // verifPar natively runs both sides concurrently (for replay under the race detector).
